@@ -16,6 +16,10 @@
 package c15
 
 import (
+	"fmt"
+	"io"
+
+	"polyverif/internal/c15/readers"
 	"polyverif/internal/run"
 )
 
@@ -57,10 +61,16 @@ func Spec() *run.Spec {
 			"spz/header_configs":                             200,
 			"spz/sh_coefficients_compared":                   300000,
 			"splatply/values_compared":                       300000,
+			"splatply/clouds_with_sh_degree_1":               200,
+			"splatply/clouds_with_sh_degree_2":               200,
+			"splatply/clouds_with_sh_degree_3":               200,
 			"large/point_counts":                             9,
 			"large/spz_points_compared":                      200000,
 			"large/splat_splats_round_tripped":               200000,
 			"large/splatply_splats_exported":                 200000,
+			"reader_kinds/splat.Read":                        10,
+			"reader_kinds/spz.Read":                          10,
+			"reader_kinds/ply.ReadMesh":                      10,
 			"faults/histories":                               1000,
 			"faults/good_calls_after_a_fault/splat.Write":    500,
 			"faults/good_calls_after_a_fault/SplatPly.Write": 300,
@@ -75,4 +85,19 @@ func Spec() *run.Spec {
 			{Name: "fault-sequences", Cases: func(t string) int { return n3(t, 2000, 100000) }, Run: faultSequences, Batch: 250, CPUBudgetS: 20},
 		},
 	}
+}
+
+// openKind hands data to a decoder through one of the reader kinds of package readers.
+// The kind is a function of the case, the call site and the size, so a replayed case meets
+// the same readers. Every kind observed is recorded per codec.
+func openKind(c *run.Ctx, res *run.Result, codec, site string, data []byte) (rd io.Reader, kind string, release func()) {
+	kind = readers.Kinds[run.Mix(uint64(c.Case), run.HashStr(c.Phase), run.HashStr(site), uint64(len(data)))%uint64(len(readers.Kinds))]
+	res.SetAdd("reader_kinds/"+codec, kind)
+	scratch := ""
+	if kind == "os.File" {
+		scratch = c.ScratchDir()
+	}
+	c.Note(fmt.Sprintf("%s through reader kind %s (%d bytes)", codec, kind, len(data)))
+	rd, release = readers.Open(kind, data, scratch)
+	return
 }
